@@ -25,8 +25,8 @@
 // prev=<hex>: the same object first decodes <hex> (to whatever end), is then
 //   re-initialised the same way (init=z re-zeroes, as its contract demands; 0 and 2 run
 //   over whatever the first decode left behind), and decodes src.
-// Work buffers are pre-filled with the prefill pattern, destination buffers (io dst,
-// pixel buffer) with the `tail` byte.
+// Work buffers are pre-filled with the prefill pattern, io destination buffers with the `tail`
+// byte, pixel buffers with a per-pixel pseudo-random pattern seeded by `tail` (see fill_pix).
 
 #include <inttypes.h>
 #include <stdint.h>
@@ -195,6 +195,7 @@ typedef struct {
   uint64_t hash;
   uint32_t w, h;
   int full;
+  uint64_t unwritten;  // image decoders: pixels (summed over the frames) still holding the pre-fill
   uint64_t value;  // hashers
 } result;
 
@@ -299,6 +300,34 @@ static void run_io(const params* p, void* obj, const uint8_t* src, size_t srclen
 
 // ---- image_decoder
 
+// The pixel buffer is pre-filled with a per-pixel pseudo-random pattern derived from `tail`, so
+// that a pixel the decoder never wrote can be told from a written one (a written BGRA pixel
+// coincides with its 4 pattern bytes with probability 2^-32).  Unwritten pixels keep whatever
+// the caller had there -- that is not part of the decoder's result; written ones are.
+static void fill_pix(uint8_t* pix, size_t plen, uint8_t tail) {
+  for (size_t i = 0; i < plen; i++) {
+    pix[i] = prng_byte(0xD57000ull + tail, i);
+  }
+}
+
+static uint64_t fnv_pix(uint64_t h, const uint8_t* pix, size_t plen, uint8_t tail, uint64_t* unwritten) {
+  size_t i = 0;
+  for (; i + 4 <= plen; i += 4) {
+    uint8_t pat[4];
+    for (int k = 0; k < 4; k++) pat[k] = prng_byte(0xD57000ull + tail, i + k);
+    if (!memcmp(pix + i, pat, 4)) {
+      uint8_t mark = 0;
+      h = fnv(h, &mark, 1);
+      (*unwritten)++;
+    } else {
+      uint8_t mark = 1;
+      h = fnv(h, &mark, 1);
+      h = fnv(h, pix + i, 4);
+    }
+  }
+  return h;
+}
+
 static void run_img(const params* p, void* obj, const uint8_t* src, size_t srclen, result* r) {
   wuffs_base__image_decoder* dec = (wuffs_base__image_decoder*)obj;
   uint8_t* sb = (uint8_t*)malloc(srclen + 1);
@@ -339,7 +368,7 @@ static void run_img(const params* p, void* obj, const uint8_t* src, size_t srcle
                                   WUFFS_BASE__PIXEL_SUBSAMPLING__NONE, w, hh);
     size_t plen = (size_t)w * (size_t)hh * 4;
     pix = (uint8_t*)malloc(plen + 1);
-    memset(pix, p->tail, plen);
+    fill_pix(pix, plen, p->tail);
     wuffs_base__pixel_buffer pb = ((wuffs_base__pixel_buffer){});
     wuffs_base__status z = wuffs_base__pixel_buffer__set_from_slice(
         &pb, &ic.pixcfg, wuffs_base__make_slice_u8(pix, plen));
@@ -373,8 +402,9 @@ static void run_img(const params* p, void* obj, const uint8_t* src, size_t srcle
                  .repr;
         FEED_OR_BREAK
       }
-      // hash the pixel buffer after every frame (animated inputs)
-      h = fnv(h, pix, plen);
+      // hash the pixel buffer after every frame (animated inputs); pixels the decoder has not
+      // written (still the pre-fill pattern) are hashed as "unwritten", not by their content
+      h = fnv_pix(h, pix, plen, p->tail, &r->unwritten);
       h = fnv(h, (const uint8_t*)&fr, sizeof(fr));
       if (st) break;
     }
@@ -488,8 +518,8 @@ static void cmd_run(char** toks, int n) {
     if (p.c->kind == 'h' || p.c->kind == 'H') {
       printf(" v=%" PRIu64 "\n", r.value);
     } else if (p.c->kind == 'i') {
-      printf(" ri=%" PRIu64 " w=%u h=%u full=%d n=%" PRIu64 " hash=%016" PRIx64 "\n", r.ri, r.w, r.h,
-             r.full, r.outlen, r.hash);
+      printf(" ri=%" PRIu64 " w=%u h=%u full=%d n=%" PRIu64 " unw=%" PRIu64 " hash=%016" PRIx64 "\n", r.ri, r.w, r.h,
+             r.full, r.outlen, r.unwritten, r.hash);
     } else {
       printf(" ri=%" PRIu64 " wi=%" PRIu64 " hash=%016" PRIx64 "\n", r.ri, r.wi, r.hash);
     }
